@@ -244,6 +244,9 @@ class InlineTranslator:
 
         ### check if tuple set semantic does not allow for unique identification
         replace_terms = [stm.weight, stm.priority] + list(stm.terms)
+        if self.minimize_tuples.count(replace_terms) > 1:
+            log.info(f"Cannot inline agregate into {str(stm)} as another objective uses the same tuple.")
+            return [stm]
         if any(
             map(
                 lambda x: potentially_unifying_sequence(x, replace_terms),
